@@ -9,9 +9,10 @@ import LLTD.Props.C04
 import LLTD.Lemmas.TranslatedWireEq
 import LLTD.Lemmas.TranslatedHelloChain
 import LLTD.Props.C03T
+import LLTD.Lemmas.TranslatedLinuxPortEq
 
 namespace LLTD.C04T
-open LLTD LLTD.Spec LLTD.TWEq
+open LLTD LLTD.Spec LLTD.TWEq LLTD.CSem
 
 /-- a buffer with `pre.length` bytes before the write position and at least two bytes of room (more where the TLV is longer:
     `rest.drop n` is what remains behind an n-byte value) -/
@@ -112,6 +113,20 @@ theorem hello_translated_attrs (base : TW.Env) (c : Cfg) (g : Glob) (hc : CfgOk 
     (b1.ret + b2.ret + (TChain.helloChain env c.wifi b2.buffer (b1.ret + b2.ret)).2)) = some h' ∧ _
   rw [h.1, h.2, List.take_left, decodeHello_helloFrame c g gen tos cur app hc hcur happ]
   exact ⟨_, rfl, C04.roundtrip c g hr⟩
+
+/-- **the Linux port's getters** (os/linux/lltd_port.c, as translated from the C text): what they hand to the core for an interface
+    record is the model's `LinuxPort.supplied` - MTU, hardware address and interface type copied, link speed in units of 100 bit/s,
+    full duplex and loopback mapped to their characteristics bits - which `C04.linux_port` / `linux_flags_in_hello` carry into the Hello -/
+theorem linux_getters_translated (env : TW.Env) (b : List Nat) (r : LinuxPort.Rec) (h : TLinuxEq.EncRec b r)
+    (o8 o6 o4 : List Nat) (h8 : o8.length = 8) (h6 : o6.length = 6) (h4 : o4.length = 4)
+    (hm : r.mtu < 4294967296) (ht : r.ifType < 4294967296) (hs : r.linkSpeed < 4294967296) :
+    unle (TW.lltd_port_get_mtu env b o8).out_mtu = (LinuxPort.supplied r).mtu
+    ∧ (TW.lltd_port_get_mac_address env b o6).out_mac = (LinuxPort.supplied r).mac
+    ∧ unle (TW.lltd_port_get_if_type env b o4).out_if_type = (LinuxPort.supplied r).ifType
+    ∧ unle (TW.lltd_port_get_link_speed_100bps env b o4).out_speed_100bps = (LinuxPort.supplied r).speed100
+    ∧ (TW.lltd_port_get_characteristics_flags env b).ret = (LinuxPort.supplied r).flags :=
+  ⟨(TLinuxEq.get_mtu_eq env b o8 r h h8 hm).2, (TLinuxEq.get_mac_eq env b o6 r h h6).2, (TLinuxEq.get_if_type_eq env b o4 r h h4 ht).2,
+   (TLinuxEq.get_link_speed_eq env b o4 r h h4 hs).2, TLinuxEq.get_flags_eq env b r h⟩
 
 /-- the hypotheses are satisfiable: a concrete wired record -/
 example : CfgOk { mac := [2, 0, 0, 0, 0, 1], mtu := 1500 } ∧ C04.CfgRange { mac := [2, 0, 0, 0, 0, 1], mtu := 1500 } := by
